@@ -10,7 +10,8 @@ use std::str::Chars;
 pub fn wildcard_match(wild: &str, tame: &str) -> bool {
     let mut wild_iter: Peekable<Chars> = wild.chars().peekable();
     let mut tame_iter: Peekable<Chars> = tame.chars().peekable();
-    let mut after_last_wild: Option<Peekable<Chars>> = None;
+    // The wild position after the last wildcard, and the tame position at which that wildcard currently stops.
+    let mut after_last_wild: Option<(Peekable<Chars>, Peekable<Chars>)> = None;
 
     loop {
         let tame_char = tame_iter.peek().copied();
@@ -37,38 +38,27 @@ pub fn wildcard_match(wild: &str, tame: &str) -> bool {
         } else {
             // If the tame string has more characters
 
-            if tame_char != wild_char {
+            if wild_char == Some('*') {
+                // If the wild character is a wildcard character, store the position after it along with the current
+                //   position in the tame string, so the wildcard can later be made to match more characters.
+                // This is needed in cases such as "abcd" matching "a*d"
+                wild_iter.next();
+                after_last_wild = Some((wild_iter.clone(), tame_iter.clone()));
+                continue;
+            } else if tame_char != wild_char {
                 // If the tame character and the wild character do not match, the only way they can be identical is if there
-                //   was previously or is currently a wildcard character
+                //   was previously a wildcard character
                 // For example, "abcd" matches "abc*" and "a*"
-                if wild_char == Some('*') {
-                    // If the wild character is a wildcard character, store the position after it
-                    // This is needed in cases such as "abcd" matching "a*d"
-                    wild_iter.next();
-                    after_last_wild = Some(wild_iter.clone());
-                    continue;
-                } else if let Some(after_last_wild_iter) = &after_last_wild {
-                    // If there is not a new wildcard character, but there has previously been one, move the iterator to
-                    //   immediately after the last wildcard character, and store the next character.
-                    wild_iter = after_last_wild_iter.clone();
-                    let wild_char = wild_iter.peek().copied();
-
-                    if wild_char.is_none() {
-                        // If there are no more wild characters, this means that the last character of the wild string was a
-                        //   wildcard character and the strings matched up to that point. Therefore, the strings match.
-                        // For example, "abcd" matches "a*"
-                        return true;
-                    } else if tame_char == wild_char {
-                        // If the characters do match, the end of the wildcard segment must have been reached, so increment the
-                        //   iterator.
-                        wild_iter.next();
-                    }
-
-                    tame_iter.next();
+                if let Some((after_wild_iter, after_tame_iter)) = &mut after_last_wild {
+                    // Make the last wildcard match one more character of the tame string, and try again from immediately
+                    //   after it. For example, "*aab" matches "aaab" only once the wildcard has matched the first "a".
+                    after_tame_iter.next();
+                    wild_iter = after_wild_iter.clone();
+                    tame_iter = after_tame_iter.clone();
                     continue;
                 } else {
-                    // If the characters do not match, are not wildcard, do not follow a wildcard, and do not complete a wildcard
-                    //   segment, then the strings do not match.
+                    // If the characters do not match, are not wildcard, and do not follow a wildcard, then the strings
+                    //   do not match.
                     return false;
                 }
             }
